@@ -346,6 +346,11 @@ def run(chk: Check) -> None:
     run_dep_hash(chk, ix)
     run_follow_skip(chk, ix)
     run_reparse_forcing(chk, ix)
+    run_generic_callee_indirection(chk, ix)
+    run_cached_lines_self_contained(chk, ix)
+    # R02.7: the validity record itself survives the JSON round trip (instances of C11's conversion rule)
+    from .c11 import run_json_conversions
+    run_json_conversions(chk, ix, rid="R02.7", only=("CacheMeta", "CacheMetaEx"), floor=4)
 
     # ---------------- R02.6
     r6 = chk.rule("R02.6", "TypeIndirectionVisitor reaches every type component (matrix row) and indirect dependencies are patched after type checking", floor=25)
@@ -504,3 +509,44 @@ def run_reparse_forcing(chk: Check, ix) -> None:
         r10.ok("load_graph parses every new state marked needs_parse", lg.loc())
     else:
         r10.violation("load_graph parses every new state marked needs_parse", lg.loc(), "states marked for re-parsing are not parsed in load_graph")
+
+
+def run_generic_callee_indirection(chk: Check, ix) -> None:
+    """R02.11: what a generic callee's type variables refer to reaches the indirect-dependency computation."""
+    r11 = chk.rule("R02.11", "indirect dependencies are computed from the types in the module's type map (plus module_refs); check_callable_call overwrites the type stored for the callee expression with the *instantiated* signature, so the bounds / value restrictions of the callee's type variables must be recorded some other way before they are dropped, otherwise a module whose check depended on them (`Value of type variable T cannot be ...`) has no dependency on the module that defines the bound", floor=1)
+    f = ix.func("mypy.checkexpr.ExpressionChecker.check_callable_call")
+    stores = [c for c in ast.walk(f.node) if isinstance(c, ast.Call) and call_name_(c) == "store_type" and c.args and norm(c.args[0]) == "callable_node"]
+    if not stores:
+        raise AnalysisError("check_callable_call no longer stores the callee type for callable_node")
+    stored = norm(stores[0].args[1])
+    reassigned = [a for a in ast.walk(f.node) if isinstance(a, ast.Assign) and norm(a.targets[0]) == stored and any(isinstance(c, ast.Call) and call_name_(c) in ("infer_function_type_arguments", "infer_function_type_arguments_using_context", "apply_generic_arguments", "freshen_function_type_vars", "freshen_all_functions_type_vars") for c in ast.walk(a.value))]
+    records = [c for c in ast.walk(f.node) if isinstance(c, ast.Call) and any(isinstance(x, ast.Attribute) and x.attr == "variables" for a in c.args for x in ast.walk(a)) and call_name_(c) in ("update", "add", "extend", "store_type", "record_indirect", "add_indirection_types")]
+    key = "check_callable_call: the type variables of a generic callee are recorded for indirect dependencies before the instantiated signature replaces the stored callee type"
+    if reassigned and not records:
+        r11.violation(key, f.loc(stores[0]), f"`{stored}` is re-assigned from type-argument inference ({len(reassigned)} sites) and then stored for the callee expression; nothing records `.variables` (their upper bounds and values) for the indirection visitor: the importer gets no dependency on the module defining a type variable's bound")
+    else:
+        r11.ok(key, f.loc(stores[0]))
+
+
+def run_cached_lines_self_contained(chk: Check, ix) -> None:
+    """R02.12: what is cached per module does not depend on which other modules were checked in the same run."""
+    r12 = chk.rule("R02.12", "error lines are cached per module (CacheMetaEx.error_lines) and replayed for fresh modules, so whether a line is produced for a module must not depend on the other modules of the run; a once-per-build de-duplication set in add_error_info that is not keyed by file drops a note from every module but the first, and the cached lines of the others then lack it for good", floor=1)
+    aei = ix.func("mypy.errors.Errors.add_error_info")
+    tested = {}
+    added = set()
+    for n in ast.walk(aei.node):
+        if isinstance(n, ast.Compare) and len(n.ops) == 1 and isinstance(n.ops[0], ast.In) and isinstance(n.comparators[0], ast.Attribute) and norm(n.comparators[0].value) == "self":
+            tested.setdefault(n.comparators[0].attr, n)
+        if isinstance(n, ast.Call) and isinstance(n.func, ast.Attribute) and n.func.attr == "add" and isinstance(n.func.value, ast.Attribute) and norm(n.func.value.value) == "self":
+            added.add(n.func.value.attr)
+    sets = sorted(set(tested) & added)
+    if not sets:
+        raise AnalysisError("add_error_info: no de-duplication set found")
+    for a in sets:
+        t = tested[a]
+        per_file = "file" in norm(t.left) or any(isinstance(x, ast.Subscript) and norm(x.value) == f"self.{a}" for x in ast.walk(aei.node))
+        key = f"Errors.{a}: the de-duplication that decides whether a line is produced is per file"
+        if per_file:
+            r12.ok(key, aei.loc(t))
+        else:
+            r12.violation(key, aei.loc(t), f"`{norm(t)}` consults a set shared by all files of the run: the note is attached to the first module that triggers it only, and the error lines cached for the other modules lack it; once the first module stops triggering it a warm run replays the others without the note, a cold run prints it")
